@@ -223,6 +223,80 @@ func c02r2(c *core.Ctx) {
 		}
 	}
 	c.Count("paths_enumerated", total)
+	// everybody else who writes the step: the dispatcher itself and every other method of the controller (a helper that builds an
+	// error answer "the way the handlers do" and stores the step it answers for). On none of their paths is the proof checked, so none of
+	// them may leave the enabling state — or a state that is not a constant — behind. Calls of the step handlers are their own
+	// paths (above) and are passed over here.
+	isHandler := map[*ssa.Function]bool{}
+	for _, h := range m.handlers {
+		isHandler[h] = true
+	}
+	var others []*ssa.Function
+	for _, f := range libFuncs(p) {
+		if isHandler[f] || f.Name() == "init" {
+			continue
+		}
+		writes := false
+		core.Instrs(f, func(i ssa.Instruction) {
+			if st, ok := i.(*ssa.Store); ok {
+				if _, ok := core.FieldAddrOf(st.Addr, tSetupCtrl, "step"); ok {
+					writes = true
+				}
+			}
+		})
+		if writes || f == m.handle {
+			others = append(others, f)
+		}
+	}
+	for _, f := range others {
+		bad := 0
+		var at token.Pos
+		okEnum := core.EnumPaths(f, 2, 20000, func(pa core.Path) {
+			set, known := false, false
+			var v int64
+			var last token.Pos
+			pa.Instrs(func(i ssa.Instruction) {
+				if st, ok := i.(*ssa.Store); ok {
+					if _, ok := core.FieldAddrOf(st.Addr, tSetupCtrl, "step"); ok {
+						set = true
+						v, known = core.ConstInt(st.Val)
+						last = st.Pos()
+					}
+					return
+				}
+				if _, isDefer := i.(*ssa.Defer); isDefer {
+					return
+				}
+				if g := core.Callee(i); g != nil && core.TypeIs(recvType(g), tSetupCtrl) {
+					if isHandler[g] {
+						set = false // the handler's own exits are decided above
+						return
+					}
+					switch e := stepSummary(g, tSetupCtrl, "step", 3); e.kind {
+					case 1:
+						set, known, v, last = true, true, e.val, i.Pos()
+					case 2:
+						set, known, last = true, false, i.Pos()
+					}
+				}
+			})
+			if set && (!known || v == enabling) {
+				bad++
+				at = last
+			}
+		})
+		if !okEnum {
+			c.Undecided("step-writers:"+fname(f), f.Pos(), "too many paths")
+			continue
+		}
+		c.Check(bad == 0, "step-writers:"+fname(f), func() token.Pos {
+			if at != token.NoPos {
+				return at
+			}
+			return f.Pos()
+		}(), "no path outside the step handlers leaves the key-exchange-enabling state (or a non-constant state) behind",
+			fmt.Sprintf("%d path(s) of %s store the key-exchange-enabling step (or a step that is not a constant) outside the step handlers — no proof is checked there: a request out of sequence (answered with an error \"the way the handlers answer\") leaves the controller ready for M5 under a key that comes from no proof", bad, fname(f)))
+	}
 	// ProofFromClientProof returns a nil error only on the true branch of VerifyClientAuthenticator
 	pf := p.Func("hap/pair", "(*SetupServerSession).ProofFromClientProof")
 	if pf == nil {
